@@ -682,7 +682,9 @@ fn network_case(rng: &mut Rng, idx: u64, out: &mut Out) {
         let r: RNet<f64> = RNet::plain(&cfg, &p2);
         let tr = r.forward(&Val::from_f32(cfg.input, &x));
         let pr = tr.output().values();
-        let finite = p2.iter().all(|p| p.flat().iter().all(|v| v.is_finite())) && pr.iter().all(|v| v.is_finite());
+        // (parameters that left [-1000, 1000] in 1..3 steps: the preparatory training diverged;
+        // single-precision forward values then overflow where the f64 reference does not)
+        let finite = p2.iter().all(|p| p.flat().iter().all(|v| v.is_finite() && v.abs() <= 1e3)) && pr.iter().all(|v| v.is_finite() && v.abs() < 1e30);
         if !finite || !well_conditioned(&cfg.layers, &tr) || (obj.probabilistic() && !pr.iter().all(|p| *p > 0.02 && *p < 0.98)) || pr.iter().zip(target.iter()).any(|(p, t)| (*p - *t as f64).abs() < 0.02) {
             out.nontrivial = false;
             out.count("pretrained_instances_not_well_conditioned", 1);
